@@ -106,6 +106,10 @@ func (h *killedHandler) cleanupIfNotRestarting() {
 		ActorRef: h.ctx.ref,
 		Type:     reflect.TypeOf(h.ctx.actor),
 	})
+
+	// Actor 可能是在邮箱挂起期间被终止的（例如故障后监管者决定立即停止）：恢复邮箱，
+	// 使仍在队列中的用户消息被排空并进入死信，而不是永久滞留
+	h.ctx.mailbox.Resume()
 }
 
 // cleanupScheduler 清理调度器
